@@ -263,7 +263,17 @@ let check_case (c : case) : unit =
      | _ ->
        incr checker_runs;
        if not (x_check_expand j real) then begin
-         let (a, b) = diff_str real (x_spec_load j) in report_hit c "C13.expand" a b end);
+         let spec = x_spec_load j in
+         let (a, b) = diff_str real spec in report_hit c "C13.expand" a b;
+         (* C08 starts from the layout the mapper is GIVEN: an `absorbing` list that the conversion loses or changes
+            (same triggers and outputs, other absorbed keys) makes the modifier count for every following keystroke *)
+         (match real, spec with
+          | Ok lr, Ok ls when List.length lr = List.length ls
+                              && List.for_all2 (fun u v -> u.m_from = v.m_from && u.m_to = v.m_to) lr ls
+                              && List.exists2 (fun u v -> u.m_abs <> v.m_abs) lr ls ->
+            report_hit c "C08.absorbing_converted" a b
+          | _, _ -> ())
+       end);
     (* C14: panics anywhere *)
     (match real with Panic _ -> report_hit c "C14.panic" "panic in parse_layout_from_json/convert" "Ok or Err" | _ -> ());
     (match c.r2 with Some (Panic _) -> report_hit c "C14.panic" "panic while reloading the saved layout" "Ok or Err" | _ -> ());
